@@ -138,6 +138,12 @@ MUTANTS = [
     ("weak_form_no_memo", "bempp_cl/api/assembly/boundary_operator.py", "        if not self._cached:\n            self._cached = self._assemble()\n\n        return self._cached", "        self._cached = self._assemble()\n\n        return self._cached", 0, ["C18"]),
     ("fmm_near_kernel_gradient_sign", "bempp_cl/api/fmm/helpers.py", "                    -diff[i, j] * m_inv_4pi / (dist[j] * dist[j] * dist[j])", "                    diff[i, j] * m_inv_4pi / (dist[j] * dist[j] * dist[j])", 0, ["C17"]),
     ("fmm_dl_component", "bempp_cl/api/fmm/fmm_assembler.py", "fmm_res2 = fmm_interface.evaluate(source_normals[:, 1] * x_transformed)[:, 2]", "fmm_res2 = fmm_interface.evaluate(source_normals[:, 1] * x_transformed)[:, 1]", 0, ["C17"]),
+    ("maxwell_fmm_efield_sign", "bempp_cl/api/fmm/fmm_assembler.py", "result *= -1j * wavenumber", "result *= 1j * wavenumber", 0, ["C17"]),
+    ("maxwell_fmm_curl_component", "bempp_cl/api/fmm/fmm_assembler.py", "(vals[2][:, 1] - vals[1][:, 2]).reshape(-1, 1),", "(vals[2][:, 1] - vals[1][:, 0]).reshape(-1, 1),", 0, ["C17"]),
+    ("maxwell_fmm_test_maps_from_domain", "bempp_cl/api/fmm/fmm_assembler.py", "_, dual_rwg_map = compute_rwg_basis_transform(dual_to_range, order)", "_, dual_rwg_map = compute_rwg_basis_transform(domain, order)", 0, ["C17"]),
+    ("potential_fmm_dl_sign", "bempp_cl/api/fmm/fmm_assembler.py", "return -(fmm0 + fmm1 + fmm2).reshape([1, -1])", "return (fmm0 + fmm1 + fmm2).reshape([1, -1])", 0, ["C17"]),
+    ("maxwell_fmm_epot_div_sign", "bempp_cl/api/fmm/fmm_assembler.py", "            - 1.0 / (1j * wavenumber) * fmm_interface.evaluate(div_map @ x)[:, 1:].T", "            + 1.0 / (1j * wavenumber) * fmm_interface.evaluate(div_map @ x)[:, 1:].T", 0, ["C17"]),
+    ("maxwell_fmm_hpot_curl", "bempp_cl/api/fmm/fmm_assembler.py", "                (vals[1][:, 0] - vals[0][:, 1]),\n", "                (vals[0][:, 1] - vals[1][:, 0]),\n", 0, ["C17"]),
     ("fmm_rows_by_position", "bempp_cl/api/fmm/fmm_assembler.py", "iind[index] = number_of_quad_points * element + point_index", "iind[index] = number_of_quad_points * element_index + point_index", 1, ["C17"]),
     ("fmm_normals_by_position", "bempp_cl/api/fmm/fmm_assembler.py", "normals[npoints * element + n, :] = grid.normals[element] * space.normal_multipliers[element]", "normals[npoints * element + n, :] = grid.normals[element]", 0, ["C17"]),
     ("fmm_select_double_before_adjoint", "bempp_cl/api/fmm/fmm_assembler.py", "    elif \"adjoint_double\" in operator_descriptor.identifier:\n        return evaluate_adjoint_double_layer\n    elif \"double\" in operator_descriptor.identifier:\n        return evaluate_double_layer", "    elif \"double\" in operator_descriptor.identifier:\n        return evaluate_double_layer\n    elif \"adjoint_double\" in operator_descriptor.identifier:\n        return evaluate_adjoint_double_layer", 0, ["C17"]),
@@ -184,6 +190,8 @@ EQUIVALENTS = [
      "    layer = operator_descriptor.identifier.split(\"_\")\n    if layer[-3] == \"single\":\n        return evaluate_single_layer\n    if layer[-4:-2] == [\"adjoint\", \"double\"] or \"adjoint\" in operator_descriptor.identifier:\n        return evaluate_adjoint_double_layer\n    if \"double\" in operator_descriptor.identifier:\n        return evaluate_double_layer", 0, ["C17"]),
     ("eq_geom_spelling", "bempp_cl/api/grid/grid.py", "        volumes = 0.5 * normal_direction_norms\n\n        jacobian_diff = jacobians[::2] - jacobians[1::2]", "        volumes = normal_direction_norms / 2\n\n        jacobian_diff = jacobians[1::2] - jacobians[::2]", 0, ["C11"]),
     ("eq_geom_centroid", "bempp_cl/api/grid/grid.py", "centroids = 1.0 / 3 * _np.sum(_np.reshape(element_vertices, (self.number_of_elements, 3, 3)), axis=1)", "centroids = _np.sum(element_vertices.reshape(self.number_of_elements, 3, 3), axis=1) / 3", 0, ["C11"]),
+    ("eq_maxwell_fmm_unrolled", "bempp_cl/api/fmm/fmm_assembler.py", "        for index in range(3):\n            result += dual_rwg_map[index] @ fmm_interface.evaluate(domain_rwg_map[index] @ x)[:, 0]\n\n        result *= -1j * wavenumber\n",
+     "        pot = [fmm_interface.evaluate(domain_rwg_map[c] @ x) for c in (0,)]\n        result = dual_rwg_map[0] @ pot[0][:, 0]\n        result += dual_rwg_map[2] @ fmm_interface.evaluate(domain_rwg_map[2] @ x)[:, 0]\n        result += dual_rwg_map[1] @ fmm_interface.evaluate(domain_rwg_map[1] @ x)[:, 0]\n        result = result * wavenumber * (-1j)\n", 0, ["C17"]),
     ("eq_refine_rename", "bempp_cl/api/grid/grid.py", "            vertex01 = self.element_edges[0, index] + self.number_of_vertices\n            vertex20 = self.element_edges[1, index] + self.number_of_vertices\n            vertex12 = self.element_edges[2, index] + self.number_of_vertices\n\n            new_elements[:, 4 * index] = [vertex0, vertex01, vertex20]\n\n            new_elements[:, 4 * index + 1] = [vertex01, vertex1, vertex12]\n\n            new_elements[:, 4 * index + 2] = [vertex12, vertex2, vertex20]\n\n            new_elements[:, 4 * index + 3] = [vertex01, vertex12, vertex20]\n",
      "            nv = self.number_of_vertices\n            m_a = nv + self.element_edges[0, index]\n            m_b = nv + self.element_edges[1, index]\n            m_c = nv + self.element_edges[2, index]\n            new_elements[:, 3 + 4 * index] = [m_a, m_c, m_b]\n            new_elements[:, 4 * index + 2] = [m_c, vertex2, m_b]\n            new_elements[:, 1 + index * 4] = [m_a, vertex1, m_c]\n            new_elements[:, index * 4] = [vertex0, m_a, m_b]\n", 0, ["C11", "C04"]),
     ("eq_union_rename", "bempp_cl/api/grid/grid.py", "        vertices[:, vertex_offset : vertex_offset + nvertices] = grid.vertices\n        if swapped_normals[index]:\n            current_elements = grid.elements[[0, 2, 1], :]\n        else:\n            current_elements = grid.elements\n        elements[:, element_offset : element_offset + nelements] = current_elements + vertex_offset\n        all_domain_indices[element_offset : element_offset + nelements] = domain_indices[index]\n        vertex_offset += nvertices\n        element_offset += nelements\n",
